@@ -107,6 +107,7 @@ func runC12(a *A) {
 		}
 	})
 	a.Rule("flow/having-fails-closed", 2, func() { a.ruleHavingFailsClosed() })
+	a.Rule("tables/null-safe-predicates", 2, func() { a.ruleNullSafePredicates() })
 	a.Rule("tables/shortcut-literal-class", 1, func() {
 		// The general engine unescapes a quoted literal, the shortcut compares the text between the quotes
 		// as written. They agree only on literals without an escape: the character class of the literal in
@@ -540,4 +541,51 @@ func (a *A) ruleHavingFailsClosed() int {
 		}
 	}
 	return n
+}
+
+// ruleNullSafePredicates: predicates are compiled for the expression engine, whose comparisons raise a
+// run-time error on a nil operand (whole predicate false) or use Go's nil equality (nil != 5 true).
+// NewExprCondition must install the patch that makes such comparisons not-true, and the patch must
+// cover all six comparison operators.
+func (a *A) ruleNullSafePredicates() {
+	nec := a.Func("condition", "NewExprCondition")
+	patchT := a.Named("condition", "nullSafeComparisons")
+	installed := false
+	allInstrs(nec, func(in ssa.Instruction) {
+		c, ok := in.(*ssa.Call)
+		if !ok || c.Call.StaticCallee() == nil || c.Call.StaticCallee().Name() != "Patch" {
+			return
+		}
+		for _, arg := range c.Call.Args {
+			v := arg
+			if mi, ok := v.(*ssa.MakeInterface); ok {
+				v = mi.X
+			}
+			if isNamedType(v.Type(), patchT.Obj().Pkg().Path(), "nullSafeComparisons") {
+				installed = true
+			}
+		}
+	})
+	a.Check(installed, fname(nec)+"#null-safe-patch", nec.Pos(), "predicates are compiled with the NULL-safe comparison patch",
+		"NewExprCondition does not install the NULL-safe comparison patch: a NULL operand aborts the whole predicate (n > 1 OR a > 1) or compares by Go's nil equality (n != 5 is true)")
+	visit := a.methodOf(patchT, "Visit")
+	if visit == nil {
+		a.anchorFail("nullSafeComparisons.Visit not found")
+	}
+	have := map[string]bool{}
+	allInstrs(visit, func(in ssa.Instruction) {
+		if bo, ok := in.(*ssa.BinOp); ok && bo.Op == token.EQL {
+			if s := constText(bo.Y); s != "" {
+				have[s] = true
+			}
+		}
+	})
+	var missing []string
+	for _, op := range []string{"==", "!=", "<", ">", "<=", ">="} {
+		if !have[op] {
+			missing = append(missing, op)
+		}
+	}
+	a.Check(len(missing) == 0, fname(visit)+"#operators", visit.Pos(), "the patch covers ==, !=, <, >, <=, >=",
+		"the NULL-safe patch does not cover "+strings.Join(missing, " ")+": these comparisons still see a nil operand")
 }
